@@ -60,6 +60,24 @@ pub fn scan_programs(thorough: bool) -> Vec<Program> {
                 });
             }
         }
+        // the inclusive upper bound while the greatest in-window key is deleted / re-created
+        // during the scan and a key above the bound exists
+        {
+            let mut setup3 = vec![ins(0, 0), ins(1, 1), ins(2, 2)];
+            if cfg.persistent {
+                setup3.push(Op::Flush);
+            }
+            for w in [vec![Op::Delete { k: 1, ts: 0 }], vec![Op::Delete { k: 1, ts: 0 }, ins(1, 3)], vec![Op::Delete { k: 0, ts: 0 }, Op::Delete { k: 1, ts: 0 }]] {
+                v.push(Program {
+                    name: format!("scan-{tier}:upper-bound:range(..=b)|{}", w.iter().map(|o| t.describe(o)).collect::<Vec<_>>().join(";")),
+                    cfg,
+                    tables: t.clone(),
+                    setup: setup3.clone(),
+                    threads: vec![vec![Op::Range { lo: 0, hi: 1, limit: 10 }], w],
+                    observe: vec![0, 1, 2],
+                });
+            }
+        }
         // index agreement after racing delete / re-create on one key
         for (a, b) in [
             (vec![Op::Delete { k: 0, ts: 0 }], vec![Op::Ifa { k: 0, v: 1 }]),
